@@ -24,12 +24,16 @@ class Violation(Exception):
 
 
 class Ctx(object):
-    def __init__(self, seed, knobs):
+    def __init__(self, seed, knobs, realfs_root=None):
         self.seed = seed
         self.knobs = knobs
         self.fault_rng = seeds.stream(seed, 'fault')
         self.aux_rng = seeds.stream(seed, 'aux')
-        self.fs = SimFS(bufsize=knobs.get('bufsize'))
+        if realfs_root is not None:
+            from .simfs import RealFS
+            self.fs = RealFS(realfs_root)
+        else:
+            self.fs = SimFS(bufsize=knobs.get('bufsize'))
         self.stats = collections.Counter()     # ops executed / skipped, faults armed ...
         self.probes = collections.Counter()    # rare-branch reach counters
         self.digest = seeds.Digest()
@@ -99,12 +103,12 @@ def _short_tb(e):
     return '%s: %s [%s]' % (type(e).__name__, str(e)[:200], ' < '.join(reversed(frames)))
 
 
-def execute(machine_cls, seed, knobs, ops, max_ops=None):
+def execute(machine_cls, seed, knobs, ops, max_ops=None, realfs_root=None):
     """Execute one run.  Returns a plain-dict record."""
     SEAMS.install()
     SCHED.install()
     SCHED.reseed(seeds.H(seed, 'hash'))
-    ctx = Ctx(seed, knobs)
+    ctx = Ctx(seed, knobs, realfs_root)
     SEAMS.fs = ctx.fs
     rec = {'outcome': 'ok', 'check': None, 'msg': None, 'key': None, 'op_index': None}
     m = None
